@@ -19,6 +19,23 @@
 //! `<base>` is `root_var` (the value operated on) or `return_var` (the clone's
 //! destination). Any other statement in these loops is an extraction failure:
 //! the Lean model would not know what it does.
+//!
+//! `listown` → `Generated/ListOwn.lean`: every function of `impl ErasedList`
+//! (`src/value/list.rs`) that receives an element by raw pointer (`NonNull<T>`), as a list of
+//! `RotoV.ListOwn.OStmt` in source order, and the function each script-visible list method
+//! with a `DynVal` parameter (`src/runtime/basic.rs`) hands its argument to:
+//!
+//! ```text
+//! let raw = self.0.lock().unwrap();                                   lock
+//! let res = unsafe { raw.<f>(p) };   (f reads p only through eq_fn)   borrow
+//! unsafe { self.0.lock().unwrap().<f>(p) }                            lock, borrow | moveIn
+//!     (moveIn: `RawList::<f>` copies the bytes of p into the list and counts it in)
+//! if let Some(drop_fn) = raw.vtable.drop_fn { unsafe { drop_fn(p.as_ptr()) }; }   releaseIfDroppable
+//! if <condition without p> { return <expression without p>; }         retIf
+//! <tail expression without p> / return …;                             ret
+//! ```
+//! `#[cfg(feature = "verif-hooks")]` statements are skipped, a `let` that does not mention the
+//! pointer is tolerated; any other statement is an extraction failure.
 #[allow(unused_imports)]
 use super::{Gen, Target};
 use crate::find;
@@ -26,7 +43,10 @@ use quote::ToTokens;
 use std::path::Path;
 use syn::visit::Visit;
 
-pub const TARGETS: &[Target] = &[("glueloops", "GlueLoops", glueloops as Gen)];
+pub const TARGETS: &[Target] = &[
+    ("glueloops", "GlueLoops", glueloops as Gen),
+    ("listown", "ListOwn", listown as Gen),
+];
 
 fn norm<T: ToTokens>(t: &T) -> String {
     t.to_token_stream().to_string().replace(' ', "")
@@ -184,5 +204,256 @@ fn glueloops(repo: &Path) -> Result<String, String> {
     out.push_str(&format!("def cloneEnumPre : List Pre := {}\n\n", list(&cpre)));
     out.push_str(&format!("/-- `generate_clone_body_enum`: body of `for (ty, layout) in layouts` -/\ndef cloneEnum : List Step := {}\n\n", list(&ce)));
     out.push_str("/-- the four loops as the current source has them -/\ndef prog : Prog :=\n  { dropRecord := dropRecord, dropEnumPre := dropEnumPre, dropEnum := dropEnum,\n    cloneRecord := cloneRecord, cloneEnumPre := cloneEnumPre, cloneEnum := cloneEnum }\n\nend RotoV.Gen.GlueLoops\n");
+    Ok(out)
+}
+
+
+// ---------------------------------------------------------------------------------------------
+// listown
+
+struct ImplFns {
+    want: &'static str,
+    found: Vec<syn::ImplItemFn>,
+}
+impl<'ast> Visit<'ast> for ImplFns {
+    fn visit_item_impl(&mut self, i: &'ast syn::ItemImpl) {
+        if i.trait_.is_none() && norm(&i.self_ty) == self.want {
+            for it in &i.items {
+                if let syn::ImplItem::Fn(f) = it {
+                    self.found.push(f.clone());
+                }
+            }
+        }
+        syn::visit::visit_item_impl(self, i);
+    }
+}
+
+/// the name of the (single) parameter of type `NonNull<T>`
+fn ptr_param(sig: &syn::Signature) -> Option<String> {
+    let mut out = vec![];
+    for a in &sig.inputs {
+        if let syn::FnArg::Typed(t) = a {
+            if norm(&t.ty) == "NonNull<T>" {
+                out.push(norm(&t.pat));
+            }
+        }
+    }
+    if out.len() == 1 { out.pop() } else { None }
+}
+
+fn idents(s: &str) -> Vec<&str> {
+    s.split(|c: char| !(c.is_alphanumeric() || c == '_')).filter(|w| !w.is_empty()).collect()
+}
+
+fn mentions(s: &str, id: &str) -> bool {
+    idents(s).iter().any(|w| *w == id)
+}
+
+fn is_hook_stmt(st: &syn::Stmt) -> bool {
+    norm(st).starts_with("#[cfg(feature=\"verif-hooks\")]")
+}
+
+/// what `RawList::<name>` does with its element pointer: `.borrow` (only handed to `eq_fn`) or
+/// `.moveIn` (its bytes are copied into the list's storage and the length is counted up)
+fn raw_kind(f: &syn::ImplItemFn) -> Result<&'static str, String> {
+    let name = f.sig.ident.to_string();
+    let q = ptr_param(&f.sig).ok_or(format!("RawList::{name}: no single NonNull<T> parameter"))?;
+    let body = norm(&f.block);
+    let uses = idents(&body).iter().filter(|w| **w == q).count();
+    let eq_uses = body.matches(&format!("(self.vtable.eq_fn)(elem.as_ptr(),{q}.as_ptr())")).count();
+    if uses > 0 && uses == eq_uses && !body.contains("drop") {
+        return Ok(".borrow");
+    }
+    if uses == 1
+        && body.contains(&format!("letsrc={q}.cast::<u8>().as_ptr();"))
+        && body.contains("std::ptr::copy_nonoverlapping(src,dst,size)")
+        && body.ends_with("self.len+=1;}")
+        && !body.contains("return")
+        && !body.contains("drop")
+    {
+        return Ok(".moveIn");
+    }
+    Err(format!("RawList::{name}: what it does with `{q}` is outside the translated subset"))
+}
+
+fn own_stmts(f: &syn::ImplItemFn, raw: &[(String, &'static str)]) -> Result<Vec<String>, String> {
+    let name = f.sig.ident.to_string();
+    let p = ptr_param(&f.sig).unwrap();
+    let kind_of = |m: &str| -> Result<&'static str, String> {
+        raw.iter().find(|r| r.0 == m).map(|r| r.1).ok_or(format!("ErasedList::{name}: `RawList::{m}` does not take an element pointer"))
+    };
+    let mut out = vec![];
+    let n = f.block.stmts.len();
+    for (i, st) in f.block.stmts.iter().enumerate() {
+        if is_hook_stmt(st) {
+            continue;
+        }
+        let s = norm(st);
+        let tail = i + 1 == n && !s.ends_with(';');
+        if s == "letraw=self.0.lock().unwrap();" {
+            out.push(".lock".to_string());
+            continue;
+        }
+        // let res = unsafe { raw.<m>(p) };
+        if let Some(r) = s.strip_prefix("letres=unsafe{raw.") {
+            if let Some(m) = r.strip_suffix(&format!("({p})}};")) {
+                out.push(kind_of(m)?.to_string());
+                continue;
+            }
+        }
+        // unsafe { self.0.lock().unwrap().<m>(p) }   (statement or tail)
+        if let Some(r) = s.strip_prefix("unsafe{self.0.lock().unwrap().") {
+            let r = r.strip_suffix(';').unwrap_or(r);
+            if let Some(m) = r.strip_suffix(&format!("({p})}}")) {
+                out.push(".lock".to_string());
+                out.push(kind_of(m)?.to_string());
+                if tail {
+                    out.push(".ret".to_string());
+                }
+                continue;
+            }
+        }
+        if s == format!("ifletSome(drop_fn)=raw.vtable.drop_fn{{unsafe{{drop_fn({p}.as_ptr())}};}}") {
+            out.push(".releaseIfDroppable".to_string());
+            continue;
+        }
+        if !mentions(&s, &p) {
+            if tail || s.starts_with("return") {
+                out.push(".ret".to_string());
+                continue;
+            }
+            if let syn::Stmt::Expr(syn::Expr::If(e), _) = st {
+                let body = norm(&e.then_branch);
+                if e.else_branch.is_none() && body.starts_with("{return") && e.then_branch.stmts.len() == 1 {
+                    out.push(".retIf".to_string());
+                    continue;
+                }
+            }
+            if let syn::Stmt::Local(_) = st {
+                if !s.contains("return") && !s.contains('?') {
+                    continue;
+                }
+            }
+        }
+        return Err(format!("ErasedList::{name}: statement outside the translated subset: {}", st.to_token_stream()));
+    }
+    Ok(out)
+}
+
+/// `(script method, ErasedList function its DynVal argument is handed to)` from the text of the
+/// `library!` block in src/runtime/basic.rs
+fn dynval_entries(repo: &Path) -> Result<Vec<(String, String)>, String> {
+    let p = repo.join("src/runtime/basic.rs");
+    let text = std::fs::read_to_string(&p).map_err(|e| format!("cannot read {}: {e}", p.display()))?;
+    let mut flat = String::new();
+    for line in text.lines() {
+        let code = match line.find("//") {
+            Some(i) => &line[..i],
+            None => line,
+        };
+        flat.extend(code.chars().filter(|c| !c.is_whitespace()));
+    }
+    let mut out = vec![];
+    let mut from = 0;
+    while let Some(off) = flat[from..].find(":DynVal)") {
+        let at = from + off;
+        from = at + 1;
+        // fn<name>(self,<arg>:DynVal)
+        let head = &flat[..at];
+        let open = head.rfind('(').ok_or("basic.rs: `(` before a DynVal parameter not found")?;
+        let params = &head[open + 1..];
+        let Some(arg) = params.strip_prefix("self,") else {
+            return Err(format!("basic.rs: a function with a DynVal parameter has the parameters `({params}: DynVal)`, expected `(self, <arg>: DynVal)`"));
+        };
+        let fn_at = head[..open].rfind("fn").ok_or("basic.rs: `fn` not found")?;
+        let name = &head[fn_at + 2..open];
+        if name.is_empty() || !name.chars().all(|c| c.is_alphanumeric() || c == '_') {
+            return Err(format!("basic.rs: cannot read the name of the function taking `{arg}: DynVal`"));
+        }
+        // the body: from the next `{` to its match
+        let rest = &flat[at..];
+        let b0 = rest.find('{').ok_or("basic.rs: body not found")?;
+        let mut depth = 0usize;
+        let mut end = None;
+        for (i, ch) in rest[b0..].char_indices() {
+            match ch {
+                '{' => depth += 1,
+                '}' => {
+                    depth -= 1;
+                    if depth == 0 {
+                        end = Some(b0 + i);
+                        break;
+                    }
+                }
+                _ => {}
+            }
+        }
+        let body = &rest[b0..=end.ok_or("basic.rs: unbalanced body")?];
+        if !body.contains(&format!("letptr=unsafe{{NonNull::new_unchecked({arg}.0)}};")) || idents(body).iter().filter(|w| **w == arg).count() != 1 {
+            return Err(format!("basic.rs: `{name}` does something else with its DynVal `{arg}` than turning it into `ptr`"));
+        }
+        let calls: Vec<&str> = body.match_indices("(ptr)").map(|(i, _)| {
+            let h = &body[..i];
+            let j = h.rfind(|c: char| !(c.is_alphanumeric() || c == '_' || c == '.')).map(|j| j + 1).unwrap_or(0);
+            &h[j..]
+        }).collect();
+        // (whitespace is gone: `let ptr =` reads `letptr=`; `ptr` occurs there and in the call)
+        if calls.len() != 1 || body.matches("ptr").count() != 2 || body.matches("letptr=").count() != 1 {
+            return Err(format!("basic.rs: `{name}` must hand `ptr` to exactly one function, found {calls:?}"));
+        }
+        let callee = calls[0].strip_prefix("self.").ok_or(format!("basic.rs: `{name}` hands `ptr` to `{}`, expected a method of the list", calls[0]))?;
+        out.push((name.to_string(), callee.to_string()));
+    }
+    if out.is_empty() {
+        return Err("basic.rs: no list method with a DynVal parameter found".into());
+    }
+    Ok(out)
+}
+
+fn listown(repo: &Path) -> Result<String, String> {
+    let file = find::parse(repo, "src/value/list.rs")?;
+    let mut raw = ImplFns { want: "RawList", found: vec![] };
+    raw.visit_file(&file);
+    let mut raw_kinds: Vec<(String, &'static str)> = vec![];
+    for f in &raw.found {
+        if f.sig.inputs.iter().any(|a| matches!(a, syn::FnArg::Typed(t) if norm(&t.ty) == "NonNull<T>")) {
+            raw_kinds.push((f.sig.ident.to_string(), raw_kind(f)?));
+        }
+    }
+    let mut er = ImplFns { want: "ErasedList", found: vec![] };
+    er.visit_file(&file);
+    let mut fns: Vec<(String, String, Vec<String>)> = vec![];
+    for f in &er.found {
+        let has_ptr = f.sig.inputs.iter().any(|a| matches!(a, syn::FnArg::Typed(t) if norm(&t.ty) == "NonNull<T>"));
+        if !has_ptr {
+            continue;
+        }
+        // hook-only additions are not part of the product
+        if f.attrs.iter().any(|a| norm(a).contains("verif-hooks")) {
+            continue;
+        }
+        let p = ptr_param(&f.sig).ok_or(format!("ErasedList::{}: more than one NonNull<T> parameter", f.sig.ident))?;
+        fns.push((f.sig.ident.to_string(), p, own_stmts(f, &raw_kinds)?));
+    }
+    if fns.is_empty() {
+        return Err("list.rs: no function of `impl ErasedList` takes an element pointer".into());
+    }
+    let entries = dynval_entries(repo)?;
+    let mut out = String::new();
+    out.push_str("/- GENERATED by /verif/extract from src/value/list.rs (functions of `impl ErasedList` that receive an element by raw pointer) and src/runtime/basic.rs (list methods with a DynVal parameter) — do not edit. -/\nimport RotoV.Model.ListOwn\nnamespace RotoV.Gen.ListOwn\nopen RotoV.ListOwn\n\n");
+    for (i, (name, p, steps)) in fns.iter().enumerate() {
+        out.push_str(&format!("/-- `ErasedList::{name}({p}: NonNull<T>)` -/\ndef f{i} : List OStmt := [{}]\n\n", steps.join(", ")));
+    }
+    out.push_str(&format!("/-- {} -/\ndef fns : List (Nat × List OStmt) := [{}]\n\n",
+        fns.iter().enumerate().map(|(i, f)| format!("{i} = {}", f.0)).collect::<Vec<_>>().join(", "),
+        (0..fns.len()).map(|i| format!("({i}, f{i})")).collect::<Vec<_>>().join(", ")));
+    let mut idx = vec![];
+    let mut doc = vec![];
+    for (m, callee) in &entries {
+        let i = fns.iter().position(|f| f.0 == *callee).ok_or(format!("basic.rs: `{m}` hands its DynVal to `ErasedList::{callee}`, which takes no element pointer"))?;
+        idx.push(i.to_string());
+        doc.push(format!("List.{m} → {callee}"));
+    }
+    out.push_str(&format!("/-- the function each script-visible list method hands its `DynVal` argument to: {} -/\ndef entries : List Nat := [{}]\n\nend RotoV.Gen.ListOwn\n", doc.join(", "), idx.join(", ")));
     Ok(out)
 }
